@@ -90,6 +90,11 @@ def build(spec):
         return R.CompoundPixelRegion(r1, r2, op, **kw)
     meta, vis = _meta(spec)
     kw = {'meta': meta, 'visual': vis}
+    if spec.get('size_dtype'):
+        # integral sizes handed over as scalars of a (narrow) numpy integer type, e.g. read from an int16 table column
+        dt = getattr(np, spec['size_dtype'])
+        spec = {k: (dt(v) if k in ('radius', 'width', 'height', 'inner_radius', 'outer_radius', 'inner_width', 'inner_height',
+                                   'outer_width', 'outer_height') else v) for k, v in spec.items()}
     if cls in ('circle', 'ellipse', 'rectangle', 'regpoly', 'point', 'text') or cls in ANNULI:
         c = PixCoord(spec['center'][0], spec['center'][1])
     ang = _angle_obj(spec.get('angle'))
@@ -562,6 +567,8 @@ def route_of(spec):
     every parameter and 1 in 5 by modifying the held coordinate/angle/metadata objects in place."""
     import json
     import zlib
+    if spec.get('size_dtype'):
+        return 'fresh'          # typed sizes are a property of the construction call itself
     h = zlib.crc32(json.dumps(spec, sort_keys=True, default=repr).encode())
     return {0: 'reassign', 1: 'inplace'}.get(h % 5, 'fresh')
 
